@@ -426,6 +426,40 @@ fn end_to_end(ctx: &Ctx, total: &mut Tally) -> Value {
         }
         report.push(json!({"scenario": sc.name, "daemon_exited_after_ms": v["daemon_exited_after_ms"], "exit_status": v["daemon_exit_status"]}));
     }
+    // a worker that dies in a daemon that has been healthy: of a lasting cause (the polling thread's `expect` on a
+    // PHC error bound that is not a number) and of a passing one (a single undecodable reply), right after
+    // start-up and when the daemon's clocks say it has been up for an hour and a half (nothing in the statement
+    // limits how long the daemon has been running when a worker dies, nor says the cause must last)
+    let shim = match e2e::shim(ctx) {
+        Ok(s) => s,
+        Err(e) => machinery_failure(&format!("C15: {e}")),
+    };
+    let uptimes = [(0u64, false), (0, true), (5400, true)];
+    let results: Vec<Result<Value, String>> = std::thread::scope(|s| {
+        let hs: Vec<_> = uptimes.iter().map(|(u, one_shot)| { let (bin, shim) = (bin.clone(), shim.clone()); s.spawn(move || e2e::run_worker_death(&bin, &shim, *u, false, *one_shot)) }).collect();
+        hs.into_iter().map(|h| h.join().unwrap_or_else(|_| Err("scenario thread panicked".into()))).collect()
+    });
+    for ((u, one_shot), r) in uptimes.iter().zip(results) {
+        let name = format!("polling thread dies ({}) in a healthy daemon whose clocks say it has been up for {u} s more than it has", if *one_shot { "one undecodable reply from chronyd, the next ones are in order" } else { "PHC error bound turns into 'not-a-number' and stays so" });
+        let v = match r {
+            Ok(v) => v,
+            Err(e) => machinery_failure(&format!("C15 end-to-end scenario '{name}': {e}")),
+        };
+        if let Some(u) = v["unavailable"].as_str() {
+            return json!({"skipped": format!("the sandbox does not allow it: {u}")});
+        }
+        if v["first_lifetime_never_synchronized"] == true {
+            machinery_failure(&format!("C15 end-to-end scenario '{name}': the daemon never published a Synchronized record against the stand-in chronyd"));
+        }
+        let doc = json!({"check": "C15", "phase": "end to end through the release binary", "scenario": name, "observed": v});
+        // the poll period (1 s) until the attribute is read again, then tear-down
+        match v["daemon_exited_ms_after_the_attribute_broke"].as_u64() {
+            Some(t) if t <= 7000 => {}
+            Some(t) => total.add("C15:e2e:exits-late", format!("{name}: the daemon process exited only {t} ms after the event"), doc.clone()),
+            None => total.add("C15:e2e:lingers-after-worker-death", format!("{name}: 15 s later the daemon process is still there ({} tracking requests were sent after the event)", v["tracking_requests_after_the_attribute_broke"]), doc.clone()),
+        }
+        report.push(json!({"scenario": name, "daemon_exited_ms_after_the_event": v["daemon_exited_ms_after_the_attribute_broke"], "exit_status": v["daemon_exit_status"]}));
+    }
     json!({"scenarios": report})
 }
 
